@@ -331,4 +331,209 @@ theorem prefix_packBytes (cells : List Cell) (h : Fits cells) :
           Nat.mul_lt_mul_of_pos_right hlt (Nat.two_pow_pos _)
       _ = 2 ^ (8 * ((P.blen + 7) / 8)) := by rw [← Nat.pow_add]; congr 1; omega
 
+/-! ### the converse: every successful parse is the layout of the values it extracted -/
+
+theorem extract_lt' (p : Payload) (off w b : Nat) (h : extract p off w = some b) : b < 2 ^ w := by
+  unfold extract at h
+  split at h
+  · injection h with h; rw [← h]; exact Nat.mod_lt _ (Nat.two_pow_pos w)
+  · simp at h
+
+/-- if `q` is a prefix of `p`, the `w` bits of `p` right after `q` extend the prefix -/
+theorem prefix_push_of_extract (q p : Payload) (w bits : Nat) (hq : Payload.Prefix q p)
+    (he : extract p q.blen w = some bits) : Payload.Prefix (q.push (w, bits)) p := by
+  obtain ⟨k, r, hb, hv, hr⟩ := hq
+  unfold extract at he
+  split at he
+  · rename_i hle
+    injection he with he
+    have hwk : w ≤ k := by omega
+    obtain ⟨j, rfl⟩ : ∃ j, k = w + j := ⟨k - w, by omega⟩
+    have hsh : p.blen - q.blen - w = j := by omega
+    rw [hsh, Nat.shiftRight_eq_div_pow, hv] at he
+    have e1 : q.val * 2 ^ (w + j) + r = r + (q.val * 2 ^ w) * 2 ^ j := by
+      rw [Nat.pow_add, Nat.mul_assoc, Nat.add_comm]
+    have hrj : r / 2 ^ j < 2 ^ w := by
+      apply Nat.div_lt_of_lt_mul
+      rw [← Nat.pow_add, Nat.add_comm]; exact hr
+    rw [e1, Nat.add_mul_div_right _ _ (Nat.two_pow_pos j), Nat.add_comm, Nat.mul_add_mod_self_right,
+      Nat.mod_eq_of_lt hrj] at he
+    refine ⟨j, r % 2 ^ j, ?_, ?_, Nat.mod_lt _ (Nat.two_pow_pos j)⟩
+    · simp only [Payload.push]; omega
+    · simp only [Payload.push]
+      rw [hv, ← he, Nat.add_mul, Nat.add_assoc, Nat.div_add_mod' r (2 ^ j), Nat.pow_add, Nat.mul_assoc]
+  · simp at he
+
+/-- parser-side invariant: the cells written so far are a prefix of the payload and the offset is
+    their total width -/
+structure CInv (cells : List Cell) (s : DState) (p : Payload) : Prop where
+  pre : Payload.Prefix (pack cells) p
+  off : s.off = (pack cells).blen
+  fits : Fits cells
+
+/-- the layout context that goes with a parser context (the layout walk never reads a payload) -/
+def Ctx.lay (c : Ctx) : Ctx := ⟨c.T, ⟨0, 0⟩, c.id, c.label⟩
+
+theorem layField_complete (c : Ctx) (hz : LabelsZero c.T) (fid : Nat) (idx : List Nat) (s s' : DState)
+    (cells : List Cell) (h : decField c fid idx s = .ok s') (hinv : CInv cells s c.p) :
+    ∃ vs cells', (∀ tail, layField c.lay fid idx ⟨s, vs ++ tail, cells⟩ = .ok ⟨s', tail, cells'⟩)
+      ∧ CInv cells' s' c.p := by
+  unfold decField at h
+  cases hf : c.T.field? fid with
+  | none => simp [hf] at h
+  | some f =>
+    simp only [hf] at h
+    cases hw : fieldWidth c.T f fid s with
+    | error e => simp [hw] at h
+    | ok w =>
+      simp only [hw] at h
+      cases hv : fieldValue c.p f w idx s with
+      | error e => simp [hv] at h
+      | ok r =>
+        obtain ⟨v, bits⟩ := r
+        simp only [hv] at h
+        cases hst : fieldStore f fid idx s.attrs v with
+        | error e => simp [hst] at h
+        | ok attrs =>
+          simp only [hst] at h
+          have hoff' : s'.off = s.off + w := fieldSpecial_off _ _ _ _ _ _ _ _ _ _ h
+          cases hl : isLabelTy f.ty with
+          | true =>
+            have hne : ¬ (some fid = c.T.special.df396) := fun h396 =>
+              fieldSpecial_label_df396 _ _ _ _ _ _ _ _ _ _ hl h396 h
+            have hw0 : w = 0 := by
+              unfold fieldWidth at hw
+              rw [if_neg hne] at hw
+              injection hw with hw
+              rw [← hw, hz fid f hf hl]
+            refine ⟨[], cells, fun tail => ?_, ⟨hinv.pre, by rw [hoff', hinv.off, hw0]; rfl, hinv.fits⟩⟩
+            unfold layField
+            simp only [Ctx.lay, hf, hw, layValue, isLabel_eq, hl, if_true, List.nil_append]
+            rw [fieldValue_label ⟨0, 0⟩ c.p f w idx s hl, hv]
+            simp only [hst, h]
+          | false =>
+            rw [fieldValue_bits c.p f w idx s hl] at hv
+            by_cases hc0 : (f.ty = .int ∨ f.ty = .snt) ∧ w = 0
+            · rw [if_pos hc0] at hv; simp at hv
+            · rw [if_neg hc0] at hv
+              cases he : extract c.p s.off w with
+              | none => rw [he] at hv; simp at hv
+              | some b =>
+                rw [he] at hv
+                injection hv with hv
+                simp only [Prod.mk.injEq] at hv
+                obtain ⟨hv1, hv2⟩ := hv
+                subst hv1 hv2
+                have hlt := extract_lt' _ _ _ _ he
+                refine ⟨[b], cells ++ [(w, b)], fun tail => ?_, ?_⟩
+                · unfold layField
+                  simp only [Ctx.lay, hf, hw, layValue, isLabel_eq, hl, Bool.false_eq_true, if_false, if_neg hc0,
+                    List.singleton_append, if_pos hlt, hst, h]
+                · refine ⟨?_, ?_, fits_append hinv.fits (by intro x hx; simp at hx; subst hx; exact hlt)⟩
+                  · rw [pack_append_singleton]
+                    exact prefix_push_of_extract _ _ _ _ hinv.pre (by rw [← hinv.off]; exact he)
+                  · rw [hoff', hinv.off, pack_append_singleton]; rfl
+
+
+/-- completeness statement for a piece of the walk: some list of raw values `vs` makes the layout
+    walk do exactly what the parser did, whatever values follow -/
+def Complete (lay : LState → Except DecErr LState) (s s' : DState) (cells : List Cell) (p : Payload) : Prop :=
+  ∃ vs cells', (∀ tail, lay ⟨s, vs ++ tail, cells⟩ = .ok ⟨s', tail, cells'⟩) ∧ CInv cells' s' p
+
+theorem layLoop_complete (p : Payload) (f : Nat → LState → Except DecErr LState) (g : Nat → DState → Except DecErr DState)
+    (hfg : ∀ i s s' cells, g i s = .ok s' → CInv cells s p → Complete (f i) s s' cells p)
+    (n i : Nat) (s s' : DState) (cells : List Cell) (h : repLoop g n i s = .ok s') (hinv : CInv cells s p) :
+    Complete (layLoop f n i) s s' cells p := by
+  induction n generalizing i s cells with
+  | zero =>
+    simp only [repLoop] at h
+    injection h with h; subst h
+    exact ⟨[], cells, fun tail => by simp [layLoop], hinv⟩
+  | succ n ih =>
+    simp only [repLoop] at h
+    cases hg : g i s with
+    | error e => simp [hg] at h
+    | ok s1 =>
+      simp only [hg] at h
+      obtain ⟨vs1, c1, l1, i1⟩ := hfg i s s1 cells hg hinv
+      obtain ⟨vs2, c2, l2, i2⟩ := ih (i + 1) s1 c1 h i1
+      refine ⟨vs1 ++ vs2, c2, fun tail => ?_, i2⟩
+      simp only [layLoop]
+      rw [List.append_assoc, l1 (vs2 ++ tail)]
+      exact l2 tail
+
+mutual
+theorem layItem_complete (c : Ctx) (hz : LabelsZero c.T) :
+    ∀ (it : Item) (idx : List Nat) (s s' : DState) (cells : List Cell),
+      decItem c it idx s = .ok s' → CInv cells s c.p → Complete (layItem c.lay it idx) s s' cells c.p
+  | .field fid, idx, s, s', cells, h, hinv => by
+    simp only [decItem] at h
+    obtain ⟨vs, c', l, i⟩ := layField_complete c hz fid idx s s' cells h hinv
+    exact ⟨vs, c', fun tail => by simp only [layItem]; exact l tail, i⟩
+  | .group cnt body, idx, s, s', cells, h, hinv => by
+    simp only [decItem] at h
+    cases hc : countOf c cnt idx s with
+    | error e => simp [hc] at h
+    | ok n =>
+      simp only [hc] at h
+      obtain ⟨vs, c', l, i⟩ := layLoop_complete c.p (fun i s => layItems c.lay body (idx ++ [i]) s)
+        (fun i s => decItems c body (idx ++ [i]) s)
+        (fun i a b cl hab hcl => layItems_complete c hz body (idx ++ [i]) a b cl hab hcl) n 1 s s' cells h hinv
+      refine ⟨vs, c', fun tail => ?_, i⟩
+      simp only [layItem]
+      rw [countOf_ctx c c.lay rfl, hc]
+      exact l tail
+  | .opt fid v body, idx, s, s', cells, h, hinv => by
+    simp only [decItem] at h
+    cases hg : s.attrs.get? (fid, []) with
+    | none => simp [hg] at h
+    | some a =>
+      simp only [hg] at h
+      by_cases he : optMatches a v = true
+      · rw [if_pos he] at h
+        obtain ⟨vs, c', l, i⟩ := layItems_complete c hz body idx s s' cells h hinv
+        exact ⟨vs, c', fun tail => by simp only [layItem, hg, if_pos he]; exact l tail, i⟩
+      · rw [if_neg he] at h
+        injection h with h; subst h
+        exact ⟨[], cells, fun tail => by simp [layItem, hg, he], hinv⟩
+  | .malformed _, idx, s, s', cells, h, hinv => by simp [decItem] at h
+theorem layItems_complete (c : Ctx) (hz : LabelsZero c.T) :
+    ∀ (l : List Item) (idx : List Nat) (s s' : DState) (cells : List Cell),
+      decItems c l idx s = .ok s' → CInv cells s c.p → Complete (layItems c.lay l idx) s s' cells c.p
+  | [], idx, s, s', cells, h, hinv => by
+    simp only [decItems] at h
+    injection h with h; subst h
+    exact ⟨[], cells, fun tail => by simp [layItems], hinv⟩
+  | it :: rest, idx, s, s', cells, h, hinv => by
+    simp only [decItems] at h
+    cases hi : decItem c it idx s with
+    | error e => simp [hi] at h
+    | ok s1 =>
+      simp only [hi] at h
+      obtain ⟨vs1, c1, l1, i1⟩ := layItem_complete c hz it idx s s1 cells hi hinv
+      obtain ⟨vs2, c2, l2, i2⟩ := layItems_complete c hz rest idx s1 s' c1 h i1
+      refine ⟨vs1 ++ vs2, c2, fun tail => ?_, i2⟩
+      simp only [layItems]
+      rw [List.append_assoc, l1 (vs2 ++ tail)]
+      exact l2 tail
+end
+
+theorem prefix_nil (p : Payload) (h : p.val < 2 ^ p.blen) : Payload.Prefix (pack []) p :=
+  ⟨p.blen, p.val, by simp [pack], by simp [pack], h⟩
+
+/-- **Converse of the round trip**: whenever the parser accepts a (proper) payload, the decoder
+    state it reaches is the layout of some list of raw values — the values it extracted, in order —
+    all of which are consumed; the cells of that layout, packed in order, are exactly the first
+    `s.off` bits of the payload. -/
+theorem layout_complete (T : Tables) (hz : LabelsZero T) (id : Ident) (label : Nat) (d : List Item)
+    (p : Payload) (hp : p.val < 2 ^ p.blen) (s : DState)
+    (h : decItems ⟨T, p, id, label⟩ d [] DState.init = .ok s) :
+    ∃ vals cells, layout T id label d vals = .ok ⟨s, [], cells⟩
+      ∧ Payload.Prefix (pack cells) p ∧ s.off = (pack cells).blen := by
+  obtain ⟨vs, cells, l, i⟩ := layItems_complete ⟨T, p, id, label⟩ hz d [] DState.init s []
+    h ⟨prefix_nil p hp, rfl, by intro x hx; simp at hx⟩
+  refine ⟨vs, cells, ?_, i.pre, i.off⟩
+  have := l []
+  simpa [layout, Ctx.lay] using this
+
 end Rtcm
